@@ -911,7 +911,8 @@ func (fs *fileStore) iterate(outFields []core.Field, ms *memstore, okayToReuseBu
 				}
 			}
 
-			var more bool
+			// a row that has none of the requested columns is skipped, the scan goes on
+			more := true
 			if includesAtLeastOneColumn {
 				more, err = onRow(key, columns, raw)
 				if err != nil {
